@@ -115,6 +115,15 @@ CHECKS = {
    design_ref='DESIGN.md section 6 / C09',
    technique='Coq format model (byte-exact) compared with the implementation + proofs of row exactness + parse-back of every format',
    note=TB + " Partial: injectivity of the string rendering is not proved (covered by parse-back on generated results); encoding/json and encoding/csv are modelled on the alphabet the analysis produces; dot is parsed back only; exposure tables are covered by C06/C07's check."),
+ 'C10': dict(
+   text="Machine-checked proof (Coq) that in the model of ingress_analyzer.go + getIngressAllowedConnections every {ingress-controller} line is the line of a workload targeted by a Route/Ingress of its namespace through a kept Service, "
+        "carries exactly the (TCP, n) with n a TCP container port reached through the targetPort (number, or name resolved on the workload; the port when unset) of the designated service port and allowed by the pointwise policy "
+        "semantics from the ingress-controller pod, is canonical and non-empty; that a blocked target gets no line and a warning naming an object that does target it; and that every targeted workload in focus has a line or a warning. "
+        "Tied to /repo by comparing the whole `list` report and the blocked-ingress warnings of random Service/Ingress/Route worlds with the model. The stated designation rule (Ingress: number or name) differs from the code "
+        "(also targetPort): known finding c10-ingress-backend-by-targetport, with a theorem that the two rules agree unless an Ingress backend port equals a targetPort.",
+   design_ref='DESIGN.md section 6 / C10',
+   technique='Coq proof (refinement of the Ingress/Route/Service analysis to the pointwise statement) + model/implementation correspondence on generated worlds',
+   note=TB + " Services/Ingress/Route YAML decoding and label-selector validation are outside the model."),
  'C11': dict(
    text="Machine-checked proof (Coq) that the Gallina mirror of ConnectionSet/PortSet denotes exactly the right (protocol,port) set under every operation, "
         "that the canonical form is unique (equal sets are identical and print identically), that the full set is flagged AllowAll, and that the canonical-form invariant "
